@@ -279,6 +279,7 @@ func main() {
 	}
 	var cmods []*modBuilder
 	cidx := make([][]cref, len(vars))
+	lidx, ridx := make([][]uint32, len(vars)), make([][]uint32, len(vars)) // mixed-mode functions (0 = none), same module as cidx
 	rtypes := make([][]byte, len(vars)) // result type letters
 	const chunk = 4000
 	for vi, v := range vars {
@@ -299,6 +300,7 @@ func main() {
 		pm.add(vts(v.P), res, pb)
 		mm.add(nil, res, mb)
 		cidx[vi] = make([]cref, len(v.Calls))
+		lidx[vi], ridx[vi] = make([]uint32, len(v.Calls)), make([]uint32, len(v.Calls))
 		for ci, args := range v.Calls {
 			if !v.Const[ci] {
 				continue
@@ -315,6 +317,29 @@ func main() {
 				body = append(body, c.Cat(cp.Op.Code, cp.Imm)...)
 			}
 			cidx[vi][ci] = cref{len(cmods) - 1, cb.add(nil, res, body)}
+			// mixed modes for single-instruction functions with two or more operands: the FIRST operand a constant and
+			// the others parameters ("constl"), the LAST a constant and the others parameters ("constr")
+			if len(v.Comps) == 1 && len(v.Comps[0].Arg) >= 2 {
+				cp := v.Comps[0]
+				last := len(cp.Arg) - 1
+				for side := 0; side < 2; side++ {
+					var b2 []byte
+					for i, a := range cp.Arg {
+						if (side == 0 && i == 0) || (side == 1 && i == last) {
+							b2 = append(b2, constInstr(cp.Op.P[i], args[a])...)
+						} else {
+							b2 = append(b2, c.LocalGet(uint32(a))...)
+						}
+					}
+					b2 = append(b2, c.Cat(cp.Op.Code, cp.Imm)...)
+					fn := cb.add(vts(v.P), res, b2)
+					if side == 0 {
+						lidx[vi][ci] = fn
+					} else {
+						ridx[vi][ci] = fn
+					}
+				}
+			}
 		}
 	}
 	pbin, mbin := pm.m.Bytes(), mm.m.Bytes()
@@ -323,9 +348,9 @@ func main() {
 		cbins = append(cbins, cb.m.Bytes())
 	}
 
-	results := make([][][6][]obs, len(vars))
+	results := make([][][10][]obs, len(vars))
 	for vi, v := range vars {
-		results[vi] = make([][6][]obs, len(v.Calls))
+		results[vi] = make([][10][]obs, len(v.Calls))
 	}
 	var wg sync.WaitGroup
 	var failMu sync.Mutex
@@ -361,7 +386,7 @@ func main() {
 			for vi, v := range vars {
 				fn := mod.ExportedFunction(fmt.Sprintf("f%d", vi))
 				for ci, args := range v.Calls {
-					results[vi][ci][3*e+0] = callFn(ctx, fn, rtypes[vi], flatArgs(v.P, args))
+					results[vi][ci][5*e+0] = callFn(ctx, fn, rtypes[vi], flatArgs(v.P, args))
 				}
 			}
 		}(e, eng)
@@ -384,7 +409,7 @@ func main() {
 						mem.WriteUint64Le(uint32(16*i), args[i][0])
 						mem.WriteUint64Le(uint32(16*i+8), args[i][1])
 					}
-					results[vi][ci][3*e+2] = callFn(ctx, fn, rtypes[vi], nil)
+					results[vi][ci][5*e+2] = callFn(ctx, fn, rtypes[vi], nil)
 				}
 			}
 		}(e, eng)
@@ -404,7 +429,11 @@ func main() {
 					for ci := range v.Calls {
 						if v.Const[ci] && cidx[vi][ci].mod == mi {
 							fn := mod.ExportedFunction(fmt.Sprintf("f%d", cidx[vi][ci].fn))
-							results[vi][ci][3*e+1] = callFn(ctx, fn, rtypes[vi], nil)
+							results[vi][ci][5*e+1] = callFn(ctx, fn, rtypes[vi], nil)
+							if lidx[vi][ci] != 0 {
+								results[vi][ci][5*e+3] = callFn(ctx, mod.ExportedFunction(fmt.Sprintf("f%d", lidx[vi][ci])), rtypes[vi], flatArgs(v.P, v.Calls[ci]))
+								results[vi][ci][5*e+4] = callFn(ctx, mod.ExportedFunction(fmt.Sprintf("f%d", ridx[vi][ci])), rtypes[vi], flatArgs(v.P, v.Calls[ci]))
+							}
 						}
 					}
 				}
@@ -437,7 +466,7 @@ func main() {
 					w.WriteString(big128(args[a]))
 				}
 				w.WriteString("],\"r\":[")
-				for s := 0; s < 6; s++ {
+				for s := 0; s < 10; s++ {
 					if s > 0 {
 						w.WriteByte(',')
 					}
